@@ -34,7 +34,8 @@ def _fields(kind):
     if kind == "convection":
         return st.lists(gen.state_scalar(True, -2.0, 2.0, special=False), min_size=3, max_size=3)
     if kind == "burgers":
-        return st.lists(gen.state_scalar(True, 0.3, 2.0, special=False), min_size=3, max_size=3)
+        # smooth-ish data, or isolated fast cells over a slow background (the CFL time step then changes by large factors between consecutive iterations)
+        return st.lists(st.one_of(gen.state_scalar(True, 0.3, 2.0, special=False), gen.state_burgers_spiky()), min_size=3, max_size=3)
     if kind == "euler2d":
         return st.lists(gen.state_euler2d(False, lnrange=0.4, machmax=1.0, smooth_amp=0.1), min_size=3, max_size=3)
     return st.lists(gen.state_euler(False, lnrange=0.5, machmax=1.2, smooth_amp=0.1), min_size=3, max_size=3)
